@@ -15,6 +15,9 @@
 -/
 import XMT.Utf16Reg
 import XMT.Utf16Utf8
+import XMT.RegDisplayLemmas
+import XMT.ViewSites
+import XMT.RegKeyLemmas
 namespace XMT.Props.C20
 open XMT XMT.Utf16
 
@@ -223,5 +226,189 @@ example : entryToStringList 7 [0x41, 0, 0, 0, 0x42, 0, 0x43] = .ok [[0x41]] := b
 example : entryToStringList 7 [0x41, 0, 0, 0, 0x42, 0, 0, 0, 0, 0] = .ok [[0x41], [0x42]] := by decide
 example : entryToInteger 4 [0xFF, 0, 0x10, 0x20] = .ok 0x201000FF := by decide
 example : (fnvHash [0x4E, 0x74]).toNat = 1131865847 ∧ fnv1Ref [0xC3, 0xA9] = 3463954941 := by decide
+
+/-! ### session 3 — the display form of a registry value (`Entry.String`, device/regedit/v_no_implant.go)
+
+`entryString ty nameLen d` is the literal model of `Entry.String()` (XMT/RegDisplay.lean): the type
+switch in source order, the length guards, both `[]uint16` views `[: len(e.Data)/2 : len(e.Data)/2]`
+read through bounds-checked accesses (`Outcome.panic "read-oob"` outside the value), the MULTI_SZ
+splitting loop with its `", "` separator, the little-endian DWORD/QWORD assembly, `util.Uitoa`
+(modelled loop-for-loop over its `[20]byte` buffer) and `hex.EncodeToString`. The result is the rune
+list of the returned string. `entryStringV vl` is the same function with the view length `vl len`. -/
+
+/-- `Entry.String` never reads a byte outside the value: for every type code, every name and every
+byte string no access of the `[]uint16` view has an index ≥ `len(Data)` (no hypothesis). -/
+theorem string_never_reads_outside (ty nameLen : Nat) (d : Bytes) :
+    entryString ty nameLen d ≠ .panic "read-oob" :=
+  entryString_no_oob ty nameLen d
+
+/-- `Entry.String` equals the reference display form and never panics (for every value whose word
+count fits the `[1 << 29]uint16` view): `"<invalid>"`/`""` for keys, the decimal digits of the
+little-endian value for DWORD/QWORD of exactly 4/8 bytes, lower-case hex for BINARY, the standard
+UTF-16 decoding up to the first NUL for SZ/EXPAND_SZ, the NUL-terminated segments (one final terminator
+dropped, an unterminated tail ignored) decoded and joined by `", "` for MULTI_SZ, `""` otherwise. -/
+theorem string_is_reference (ty nameLen : Nat) (d : Bytes) (hc : d.length / 2 ≤ Facts.regArrayCap) :
+    entryString ty nameLen d = .ok (refDisplay ty nameLen d) :=
+  entryString_eq ty nameLen d hc
+
+/-- Guard needed: the view length must round *down*. With `(len(e.Data)+1)/2` words `Entry.String` of
+any SZ / EXPAND_SZ / MULTI_SZ value of odd length ≥ 3 reads the byte after the value. -/
+theorem string_view_guard_needed (ty nameLen : Nat) (d : Bytes)
+    (hty : ty = Facts.regTypeString ∨ ty = Facts.regTypeExpandString ∨ ty = Facts.regTypeStringList)
+    (h3 : 3 ≤ d.length) (hodd : d.length % 2 = 1) (hc : (d.length + 1) / 2 ≤ Facts.regArrayCap) :
+    entryStringV (fun l => (l + 1) / 2) ty nameLen d = .panic "read-oob" :=
+  entryStringV_roundUp_oob ty nameLen d hty h3 hodd hc
+
+/-- The display form agrees with the typed decoders: for a string value it is `ToString`'s result, for
+a list value `ToStringList`'s elements joined by `", "`, for an integer value `ToInteger` in decimal. -/
+theorem string_agrees_with_decoders (ty nameLen : Nat) (d : Bytes) (hc : d.length / 2 ≤ Facts.regArrayCap)
+    (h3 : 3 ≤ d.length) :
+    ((ty = Facts.regTypeString ∨ ty = Facts.regTypeExpandString) →
+        entryToString ty d = entryString ty nameLen d) ∧
+    (ty = Facts.regTypeStringList →
+        ∃ l, entryToStringList ty d = .ok l ∧ entryString ty nameLen d = .ok (joinSegs l)) := by
+  have e1 : Facts.regTypeString = 1 := by decide
+  have e2 : Facts.regTypeExpandString = 2 := by decide
+  have e7 : Facts.regTypeStringList = 7 := by decide
+  have e4 : Facts.regTypeDword = 4 := by decide
+  have e11 : Facts.regTypeQword = 11 := by decide
+  have e3 : Facts.regTypeBinary = 3 := by decide
+  constructor
+  · intro hty
+    rw [string_is_reference ty nameLen d hc, registry_toString ty d hc]
+    unfold refDisplay
+    rw [e1, e2, e7, e4, e11, e3]
+    rw [e1, e2] at hty
+    rcases hty with h | h <;> subst h <;> simp
+    all_goals (rw [if_neg (by omega), if_neg (by omega)])
+  · intro hty
+    refine ⟨(segs (stripLastNul (leWords d))).map refDecode, ?_, ?_⟩
+    · rw [registry_toStringList ty d hc, if_neg (by simp [hty]), if_neg (by omega)]
+    · rw [string_is_reference ty nameLen d hc]
+      unfold refDisplay
+      rw [e1, e2, e7, e4, e11, e3]
+      rw [e7] at hty
+      subst hty
+      simp
+      omega
+
+/-- `util.Uitoa` is the decimal representation for every `uint64`: the wrapping `0x30 + v - n*0xA`
+is the digit `v % 10`, at most 20 digits are written and no index of the `[20]byte` buffer is out of
+range. -/
+theorem uitoa_is_decimal (v : Nat) (h : v < 18446744073709551616) : uitoa v = .ok (decRef v) :=
+  uitoa_eq v h
+
+/-- … where "decimal" means: the returned string consists of ASCII digits only, denotes `v` in base
+ten, is not empty and has no leading zero (so it is *the* decimal numeral of `v`). -/
+theorem uitoa_digits (v : Nat) (h : v < 18446744073709551616) :
+    ∃ s, uitoa v = .ok s ∧ decValue s = v ∧ (∀ b ∈ s, 0x30 ≤ b.toNat ∧ b.toNat ≤ 0x39) ∧
+      (v ≠ 0 → s.head? ≠ some 0x30) ∧ s ≠ [] :=
+  ⟨decRef v, uitoa_eq v h, decRef_spec v v (Nat.le_refl _)⟩
+
+/-! ### session 3 — every array view over raw memory in the device packages has the expected bound
+(regenerated by go/parser from *all* build variants, including the `//go:build windows` files that do
+not compile on the test host) -/
+
+/-- Tie obligation: each of the slice expressions over a `(*[N]T)(unsafe.Pointer(..))` view has the
+bound `XMT.ViewSites.siteOk` requires — in particular every `[1 << 29]uint16` view over a byte slice
+(`Entry.ToString`, `Entry.ToStringList`, `Entry.String` twice, and the Windows-only `Key.String`,
+`Key.Strings`) is `[: len/2 : len/2]` over `&X[0]` of the same `X`. -/
+theorem tie_view_sites_bounded : Facts.c20ViewSites.all ViewSites.siteOk = true := by decide
+
+/-- Tie obligation: the `uint16` views are exactly these six (a new consumer of the UTF-16 helpers
+over raw memory has to be added to the model or to this list). -/
+theorem tie_word_views_pinned :
+    (Facts.c20ViewSites.filter ViewSites.isWordView).map ViewSites.siteWhere =
+      [["device/regedit/entry.go", "Entry.ToString"], ["device/regedit/entry.go", "Entry.ToStringList"],
+       ["device/regedit/v_no_implant.go", "Entry.String"], ["device/regedit/v_no_implant.go", "Entry.String"],
+       ["device/winapi/registry/value.go", "Key.String"], ["device/winapi/registry/value.go", "Key.Strings"]] := by
+  decide
+
+/-! ### session 3 — the precomputed API-name hashes -/
+
+/-- Every hash literal of the `crypt` proc tables of device/winapi (`funcX = dllY.proc(0x…)`,
+regenerated together with the name its `!crypt` twin `funcX = dllY.proc("Name")` passes) is
+`FnvHash` of that name, so both build variants resolve the same export. -/
+theorem api_hashes_are_fnv1 :
+    ∀ e ∈ Facts.c20ApiHashes, (fnvHash e.2.1).toNat = e.2.2 := by
+  have h : Facts.c20ApiHashes.all (fun e => fnv1Ref e.2.1 == e.2.2) = true := by decide +kernel
+  intro e he
+  rw [fnv_is_fnv1]
+  have := List.all_eq_true.mp h e he
+  simpa using this
+
+/-- Tie obligation: every variable of the hash tables was joined with a name (same variable, same DLL,
+same resolver kind), there are at least 170 of them, and no two names of the table collide. -/
+theorem tie_api_tables_joined :
+    Facts.c20ApiUnmatched = [] ∧ 170 ≤ Facts.c20ApiHashes.length ∧
+    (Facts.c20ApiHashes.map (·.2.2)).eraseDups.length = (Facts.c20ApiHashes.map (·.2.1)).eraseDups.length := by
+  decide +kernel
+
+/-! ### session 3 — the Windows-only readers `Key.String` / `Key.Strings` (device/winapi/registry/value.go)
+
+These do not compile on the test host and are not run. `keyString` / `keyStrings` (XMT/RegKey.lean)
+model what they do with the bytes `getValue` returned; the tie is syntactic: the regenerated statement
+traces of the two functions must equal the pinned texts the model was written from. -/
+
+/-- Tie obligation: the statement traces of `Key.String` and `Key.Strings` (every statement, guard,
+slice bound, operand; regenerated by go/parser from the windows-tagged file) are the pinned ones. -/
+theorem tie_key_traces :
+    Facts.c20_trace_KeyString = Pinned.keyString ∧ Facts.c20_trace_KeyStrings = Pinned.keyStrings := by
+  decide +kernel
+
+/-- Neither reader reads a byte outside the value `getValue` returned, for every type code and every
+byte string (in particular not the stale bytes between `len` and `cap` of the 64-byte buffer). -/
+theorem key_readers_never_read_outside (ty : Nat) (d : Bytes) :
+    keyString ty d ≠ .panic "read-oob" ∧ keyStrings ty d ≠ .panic "read-oob" :=
+  ⟨keyString_no_oob ty d, keyStrings_no_oob ty d⟩
+
+/-- `Key.String`: wrong type → `ErrUnexpectedType`; otherwise the standard decoding of the value's
+little-endian words up to the first NUL (any length, including 0, 1 and odd lengths). -/
+theorem key_string_is_reference (ty : Nat) (d : Bytes) (hc : d.length / 2 ≤ Facts.regArrayCap) :
+    keyString ty d =
+      if ty = Facts.regTypeString ∨ ty = Facts.regTypeExpandString
+      then .ok (refDecode (untilNul (leWords d))) else .err .unexpectedType :=
+  keyString_eq ty d hc
+
+/-- `Key.Strings`: wrong type → `ErrUnexpectedType`; otherwise the NUL-terminated segments of the word
+list (one final terminator dropped), each decoded by the standard decoder. -/
+theorem key_strings_is_reference (ty : Nat) (d : Bytes) (hc : d.length / 2 ≤ Facts.regArrayCap) :
+    keyStrings ty d =
+      if ty ≠ Facts.regTypeStringList then .err .unexpectedType
+      else .ok ((segs (stripLastNul (leWords d))).map refDecode) :=
+  keyStrings_eq ty d hc
+
+/-- On values of at least 3 bytes the Windows-only readers and the portable decoders of
+device/regedit (which the harness runs) return the same results. -/
+theorem key_readers_agree_with_entry (ty : Nat) (d : Bytes) (hc : d.length / 2 ≤ Facts.regArrayCap)
+    (h3 : 3 ≤ d.length) :
+    keyString ty d = entryToString ty d ∧ keyStrings ty d = entryToStringList ty d := by
+  rw [key_string_is_reference ty d hc, key_strings_is_reference ty d hc, registry_toString ty d hc,
+    registry_toStringList ty d hc]
+  constructor
+  · by_cases h : ty = Facts.regTypeString ∨ ty = Facts.regTypeExpandString
+    · rw [if_pos h, if_neg (by intro ⟨a, b⟩; rcases h with h | h <;> contradiction), if_neg (by omega)]
+    · rw [if_neg h, if_pos (by constructor <;> intro e <;> exact h (by simp [e]))]
+  · by_cases h : ty ≠ Facts.regTypeStringList
+    · rw [if_pos h, if_pos h]
+    · rw [if_neg h, if_neg h, if_neg (by omega)]
+
+example : entryString 7 1 [0x41, 0, 0, 0, 0x42, 0, 0x43, 0, 0, 0, 0, 0] = .ok [0x41, 44, 32, 0x42, 0x43] := by decide
+example : entryString 7 1 [0, 0, 0x41, 0, 0, 0, 0, 0] = .ok [44, 32, 0x41] ∧ entryString 7 1 [0, 0, 0x41, 0, 0, 0, 0x42] = .ok [] := by decide
+example : entryString 1 1 [0x3D, 0xD8, 0x00, 0xDE, 0, 0, 0x42] = .ok [0x1F600] := by decide
+example : entryString 4 1 [0xFF, 0, 0x10, 0x20] = .ok [53, 51, 55, 57, 49, 57, 55, 52, 51] := by decide
+example : entryString 11 1 [0xFF, 0xFF, 0xFF, 0xFF, 0xFF, 0xFF, 0xFF, 0xFF] =
+    .ok [49, 56, 52, 52, 54, 55, 52, 52, 48, 55, 51, 55, 48, 57, 53, 53, 49, 54, 49, 53] := by decide
+example : entryString 3 1 [0xAB, 0x01] = .ok [0x61, 0x62, 0x30, 0x31] ∧ entryString 0 0 [] = .ok invalidRunes ∧
+    entryString 4 1 [1, 2, 3] = .ok [] ∧ entryString 9 1 [1, 2, 3, 4] = .ok [] := by decide
+example : entryStringV (fun l => (l + 1) / 2) 1 1 [0x41, 0, 0x42] = .panic "read-oob" ∧
+    entryString 1 1 [0x41, 0, 0x42] = .ok [0x41] := by decide
+example : uitoa 18446744073709551615 = .ok [49, 56, 52, 52, 54, 55, 52, 52, 48, 55, 51, 55, 48, 57, 53, 53, 49, 54, 49, 53] ∧
+    uitoa 10 = .ok [49, 48] ∧ uitoa 0 = .ok [48] := by decide
+example : (3 : Nat) / 2 ≤ Facts.regArrayCap ∧ (3 + 1) / 2 ≤ Facts.regArrayCap := by decide
+example : Facts.c20ViewSites.length = 16 ∧ Facts.c20ApiHashes.length = 176 := by decide +kernel
+example : ViewSites.siteOk ["f.go", "F", "[(1 << 29)]uint16", "&#[0]", "", "((len(#) + 1) / 2)", "((len(#) + 1) / 2)"] = false := by decide +kernel
+example : keyString 1 [0x41] = .ok [] ∧ keyString 1 [0x41, 0, 0x42] = .ok [0x41] ∧ keyString 7 [] = .err .unexpectedType ∧
+    keyStrings 7 [0x41, 0, 0, 0, 0x42, 0, 0, 0, 0, 0] = .ok [[0x41], [0x42]] ∧ keyStrings 7 [0x41] = .ok [] := by decide
 
 end XMT.Props.C20
